@@ -1,5 +1,7 @@
 """C10 — wire codecs are total, canonical and lossless for every BOLT message."""
 import collections
+import os
+import re
 
 from lib.verif import *
 
@@ -19,7 +21,7 @@ H_WIRE = ["lnwire/verif_wire_test.go"]
 WARM = [{"pkg": "tlv", "files": H_TLV, "moddir": "tlv"},
         {"pkg": "lnwire", "files": H_WIRE}]
 IMPORTS = ("From Coq Require Import List NArith Bool.\nImport ListNotations.\n"
-           "From LV Require Import Wire.Model Wire.Exec.\n")
+           "From LV Require Import Wire.Model Wire.MsgModel Wire.Exec.\n")
 
 SIG_COPYN = "C10 tlv:nonp2p-negative-length"
 SIG_BIGSIZE = "C10 tlv:bigsize-record-ignores-length"
@@ -65,6 +67,11 @@ def t_case(r):
         return "CStreamCode %s %s %s %s" % (
             clist([t_kind(x) for x in r["known"]]), cbool(r["p2p"]), cbytes(r["b"]),
             cN(r["code"]))
+    if k == "msg" and r.get("tlvmsg"):
+        return "CTMsg %s %s %s %s %s %s %s" % (
+            cbytes(r["b"]), cbool(r["ok"]), cN(r["t"]),
+            clist([t_fval(f) for f in r.get("fields") or []]), cbytes(r.get("extra") or ""),
+            cbytes(r.get("reenc") or ""), clist([cbytes(x) for x in r.get("pts") or []]))
     if k == "msg":
         return "CMsg %s %s %s %s %s" % (
             cbytes(r["b"]), cbool(r["ok"]), cN(r["t"]),
@@ -74,6 +81,120 @@ def t_case(r):
             cN(r["t"]), clist([t_fval(f) for f in r["fields"]]), cbool(r["ok"]),
             cbytes(r.get("out") or ""))
     raise ValueError(k)
+
+
+# ------------------------------------------------ generated layouts (Gen/GenWire.v)
+
+CUSTOM_FIRST = 32768        # Custom.Encode/Decode: hand-written layout [FRest] (Wire/Exec.v)
+
+
+def load_gen_fields():
+    """{type: {"kind": "plain"|"tlv", "mode", "ext", "fields": [(name, codec, cond)]}} from the
+    `(* @fields ... *)` lines the translator writes into Gen/GenWire.v."""
+    out = {}
+    try:
+        txt = open(os.path.join(THEORIES, "Gen", "GenWire.v")).read()
+    except OSError:
+        return out
+    for m in re.finditer(r"\(\* @fields (\d+) (plain|tlv) (\S+) ext=(\S*) (.*?) ?\*\)", txt):
+        fields = []
+        for tok in m.group(5).split():
+            cond = None
+            if tok.startswith("?"):
+                c, name, codec = tok[1:].split(":")
+                fld, mask = c.split("&")
+                cond = (fld, int(mask))
+            else:
+                name, codec = tok.split(":")
+            fields.append((name, codec, cond))
+        out[int(m.group(1))] = {"kind": m.group(2), "mode": m.group(3), "ext": m.group(4),
+                                "fields": fields}
+    out[CUSTOM_FIRST] = {"kind": "plain", "mode": "-", "ext": "Data",
+                         "fields": [("Data", "FRest", None)]}
+    return out
+
+
+def ordered_fields(desc, fmap):
+    """Field values in wire order, or None when a value is missing from the dump."""
+    vals = []
+    for name, codec, cond in desc["fields"]:
+        if cond is not None:
+            f = fmap.get(cond[0])
+            if f is None:
+                return None
+            if int(f[1]) & cond[1] == 0:
+                continue
+        f = fmap.get(name)
+        if f is None:
+            if codec in ("FRest", "FTlvRest", "FVar16", "FFeat") or codec.startswith("FVar16Max") \
+                    or codec.startswith("FArr16"):
+                f = ["b", ""]
+            else:
+                return None
+        vals.append(f)
+    return vals
+
+
+SECP_P = 2 ** 256 - 2 ** 32 - 977
+
+
+def secp_on_curve(w):
+    """btcec.ParsePubKey on 33 bytes (independent of the Go code)."""
+    if len(w) != 33 or w[0] not in (2, 3):
+        return False
+    x = int.from_bytes(w[1:], "big")
+    if x >= SECP_P:
+        return False
+    c = (x * x * x + 7) % SECP_P
+    return c == 0 or pow(c, (SECP_P - 1) // 2, SECP_P) == 1
+
+
+def curve_points(b):
+    """all 33-byte windows of b that are compressed secp256k1 points (hex)"""
+    pts = set()
+    for i in range(0, len(b) - 32):
+        if b[i] in (2, 3):
+            w = b[i:i + 33]
+            if secp_on_curve(w):
+                pts.add(w.hex())
+    return sorted(pts)
+
+
+def prepare_model_rows(wrows, gen):
+    """Attach ordered field values / oracle table to the rows of modelled types."""
+    out = []
+    for r in wrows:
+        if r["k"] not in ("msg", "write"):
+            continue
+        d = gen.get(r["t"])
+        if d is None:
+            continue
+        if r["k"] == "write":
+            if d["kind"] != "plain" or "fmap" not in r:
+                continue
+            f = ordered_fields(d, r["fmap"])
+            if f is None:
+                continue
+            out.append(dict(r, fields=f, model=True))
+            continue
+        if "b" not in r or len(r["b"]) > 2 * MAX_COQ_BYTES or r.get("panic"):
+            continue
+        q = dict(r, model=True)
+        if r["ok"]:
+            if "fmap" not in r or "reenc" not in r:
+                continue
+            f = ordered_fields(d, r["fmap"])
+            if f is None:
+                continue
+            q["fields"] = f
+        if d["kind"] == "tlv":
+            q["tlvmsg"] = True
+            q["pts"] = curve_points(bytes.fromhex(r["b"])[2:])
+            if r["ok"]:
+                e = r["fmap"].get(d["ext"])
+                q["extra"] = e[1] if e else ""
+        out.append(q)
+    return out
 
 
 # ------------------------------------------------ independent spec (BOLT 1) in python
@@ -363,9 +484,11 @@ def run(ctx):
                 report("C10_layout_roundtrip", r, f, None)
 
     # ---- correspondence: the model evaluated on the same inputs ----
+    gen = load_gen_fields()
+    mrows = prepare_model_rows(wrows, gen)
     crow = [r for r in rows if len(r.get("b", "")) <= 2 * MAX_COQ_BYTES]
-    crow += [r for r in wrows if r["k"] in ("msg", "write") and r.get("model")
-             and len(r.get("b", "") or r.get("out", "")) <= 2 * MAX_COQ_BYTES]
+    crow += [r for r in mrows
+             if len(r.get("b", "") or r.get("out", "")) <= 2 * MAX_COQ_BYTES]
     terms = [t_case(r) for r in crow]
     ok, bad, logs = coq_mismatches(ctx.uid(), IMPORTS, terms,
                                    shard=max(20, len(terms) // NCPU + 1))
@@ -378,7 +501,8 @@ def run(ctx):
                       {"case": r, "failed_checks": which,
                        "legend": "1/2 ReadVarInt, 3 WriteVarInt, 4 stream verdict/records, "
                                  "5 stream re-encode, 6 ReadMessage verdict/fields, "
-                                 "7 message re-encode, 8 WriteMessage"},
+                                 "7 message re-encode, 8 WriteMessage, 9 TLV-message "
+                                 "verdict/fields, 10 ExtraData field, 11 TLV-message re-encode"},
                       signature="C10 mismatch %s check%s" % (r["k"], which))
     if not pr["ok"] and not ctx.violations:
         ctx.violation("proof_broken", ", ".join(pr["broken"]) or "Wire build",
@@ -404,7 +528,10 @@ def run(ctx):
         "tlv_cases": dict(hist), "wire_cases": dict(whist),
         "message_types_exercised": len(types),
         "message_types": types,
-        "layout_modelled_types": sorted({r["t"] for r in wrows if r.get("model")}),
+        "layout_modelled_types": sorted({r["t"] for r in mrows}),
+        "layout_modelled_cases": len(mrows),
+        "tlv_message_cases": sum(1 for r in mrows if r.get("tlvmsg")),
+        "generated_layout_types": sorted(t for t in gen if t != CUSTOM_FIRST),
         "samples": [rows[0], {k: v for k, v in wrows[0].items() if k != "b"}],
         "correspondence_mismatches": len(bad),
         "predicate_failures": dict(nviol),
